@@ -78,6 +78,12 @@ fn switches(s: &[Step]) -> usize {
     n
 }
 
+/// scenario-specific counters that end up in the result file ("extra")
+pub static EXTRA: std::sync::Mutex<std::collections::BTreeMap<String, u64>> = std::sync::Mutex::new(std::collections::BTreeMap::new());
+pub fn bump(key: &str) {
+    *EXTRA.lock().unwrap().entry(key.to_string()).or_insert(0) += 1;
+}
+
 pub fn main(args: &[String]) -> i32 {
     if args.len() < 4 {
         eprintln!("usage: mv <scenario> replay|explore|dfs|one <file> [options]");
@@ -274,6 +280,7 @@ pub fn main(args: &[String]) -> i32 {
         "diverged": st.diverged, "first_divergence": st.first_div, "steps": st.steps,
         "distinct": st.distinct.len(), "distinct_nontrivial": st.nontrivial,
         "violations": st.violations, "tool_errors": st.tool_errors, "samples": st.samples,
+        "extra": EXTRA.lock().unwrap().clone(),
     });
     let s = serde_json::to_string_pretty(&res).unwrap();
     match arg(args, "--out") {
